@@ -41,9 +41,11 @@ pub fn dispatch(name: &str) -> bool {
         "h_c12::resolve_array_conflict" => h_c12::resolve_array_conflict(),
         "h_hist::commit_graph" => h_hist::commit_graph(),
         "h_hist::time_travel" => h_hist::time_travel(),
+        "h_hist::time_travel_rounds" => h_hist::time_travel_rounds(),
         "h_c03::commit_reopen" => h_c03::commit_reopen(),
         "h_c04::update_read" => h_c04::update_read(),
         "h_c04::array_chain" => h_c04::array_chain(),
+        "h_c04::observer_chain" => h_c04::observer_chain(),
         "h_c04::resubmit_in_conflict" => h_c04::resubmit_in_conflict(),
         "h_c15::stage_roundtrip" => h_c15::stage_roundtrip(),
         "h_c10::junk_item" => h_c10::junk_item(),
